@@ -377,6 +377,97 @@ def fallback_case(item):
     return (cmax, smax, scsv), (c_ok, s_ok), fails
 
 
+SENTINELS = {"tls12": b"DOWNGRD\x01", "tls11": b"DOWNGRD\x00", "none": None}
+
+
+def sentinel_case(item):
+    """Downgrade sentinel, client side: a server whose highest version is v
+    answers a client whose highest version is cmax; the attacker writes a
+    sentinel (or nothing) into the last 8 bytes of ServerHello.random.
+    RFC 8446 4.1.3: a TLS 1.3 client MUST abort on either value when TLS 1.2
+    or below is negotiated; a TLS 1.2 client on DOWNGRD\\x00 below TLS 1.2.
+    Server side: the honest ServerHello of a server that supports more than
+    it negotiates carries the sentinel."""
+    from ..puppet import Tap
+    kind, cmax, v, tail, seed = item
+    fails = []
+    if kind == "server":
+        smax = tail
+        sc = S.Scen("c04/sentinel-server", cred="rsa", minv=(3, 0), maxv=v,
+                    sminv=(3, 0), smaxv=smax)
+        pair, out, log, _ = run_mitm(sc, seed, None)
+        ok = out["C"].status == "ok" and out["S"].status == "ok"
+        if not ok:
+            return item[:4], ("honest-failed",), ["honest run failed: %r" %
+                                                  (out,)]
+        sh = log["s2c"][0]
+        got = bytes(sh[5 + 4 + 2 + 24:5 + 4 + 2 + 32])
+        want = None
+        if v <= (3, 3) and smax >= (3, 4):
+            want = b"DOWNGRD\x01" if v == (3, 3) else b"DOWNGRD\x00"
+        elif v < (3, 3) and smax == (3, 3):
+            want = b"DOWNGRD\x00"
+        if want is not None and got != want:
+            fails.append("server supporting %r negotiated %r without the "
+                         "downgrade sentinel (random tail %s)" % (
+                             smax, v, got.hex()))
+        if want is None and got in (b"DOWNGRD\x01", b"DOWNGRD\x00"):
+            fails.append("server set a downgrade sentinel at its own "
+                         "highest version")
+        return item[:4], ("server", want is not None), fails
+    sc = S.Scen("c04/sentinel", cred="rsa", minv=(3, 0), maxv=cmax,
+                sminv=(3, 0), smaxv=v)
+    tb = SENTINELS[tail]
+
+    def fn(rr):
+        if tb is None:
+            return [rr]
+        b = bytearray(rr)
+        b[5 + 4 + 2 + 24:5 + 4 + 2 + 32] = tb
+        return [bytes(b)]
+    SEAMS.reset(seed, sc.name)
+    w = World()
+    hit = {"n": 0}
+
+    def mitm(pipe, i, rec):
+        if i == 0:
+            hit["n"] += 1
+            return fn(rec)
+        return [rec]
+    w.s2c.mitm = mitm
+    pair = W.Pair(w)
+    tap = Tap(pair.c)
+    pair, out = S.connect(sc, world=w, seed=seed, reset=False, pair=pair)
+    must_abort = tb is not None and (
+        (cmax >= (3, 4) and v <= (3, 3)) or
+        (cmax == (3, 3) and v < (3, 3) and tb == b"DOWNGRD\x00"))
+    co = out["C"]
+    after_sh = []
+    seen_sh = False
+    for (k, tok) in tap.log:
+        if k == "recv" and tok == "SH":
+            seen_sh = True
+        elif k == "send" and seen_sh and tok != "ALERT":
+            after_sh.append(tok)
+    sig = ("client", must_abort, co.sig()[:3], bool(after_sh))
+    if must_abort:
+        e = co.exc
+        if co.status == "ok":
+            fails.append("client (max %r) completed a %r handshake whose "
+                         "ServerHello carries %r" % (cmax, v, tb))
+        elif not (isinstance(e, E.TLSLocalAlert) and e.description == 47):
+            fails.append("client (max %r) did not answer the sentinel %r at "
+                         "%r with illegal_parameter: %r" % (cmax, tb, v, co))
+        if after_sh:
+            fails.append("client (max %r) went on with the handshake (%r) "
+                         "after a ServerHello carrying %r at %r" % (
+                             cmax, after_sh, tb, v))
+    elif tb is None:
+        if not (co.status == "ok" and out["S"].status == "ok"):
+            fails.append("untouched handshake failed: %r" % (out,))
+    return item[:4], sig, fails
+
+
 def run(res, tier, seed):
     res.coverage["rule"] = (
         "per base scenario (both ends support more than what is finally "
@@ -426,6 +517,27 @@ def run(res, tier, seed):
             res.violation({"part": "fallback", "what": f[:40]},
                           {"case": k, "fail": f}, {"fallback": k})
     res.section("fallback_scsv", cases=nf)
+    sitems = []
+    for cmax in S.VERSIONS:
+        for v in S.VERSIONS:
+            if v > cmax or v > (3, 3):
+                continue
+            for tail in ("tls12", "tls11", "none"):
+                sitems.append(("client", cmax, v, tail, seed))
+    for smax in S.VERSIONS:
+        for v in S.VERSIONS:
+            if v <= smax:
+                sitems.append(("server", None, v, smax, seed))
+    ns = 0
+    for (k, sig, fails) in pmap(sentinel_case, sitems):
+        ns += 1
+        res.count()
+        res.outcome(("sentinel",) + tuple(sig))
+        for f in fails:
+            res.violation({"part": "sentinel", "what": f[:40]},
+                          {"case": k, "fail": f}, {"sentinel": k})
+    res.section("downgrade_sentinel", cases=ns)
+    nf += ns
     res.coverage["distinct_nontrivial"] = n + nf
     res.assumptions.append("changes to the header of plaintext records and "
                            "other modifications that leave the handshake "
